@@ -154,9 +154,18 @@ def vbuild(guard=True, extra_cflags=(), tag=""):
         os.utime(os.path.join(d, "OK"))
         return info
     # keep the cache small: remove all but the 3 most recent entries
-    ents = sorted((e for e in os.listdir(CACHE_ROOT)), key=lambda e: os.path.getmtime(os.path.join(CACHE_ROOT, e)))
-    for e in ents[:-3]:
-        shutil.rmtree(os.path.join(CACHE_ROOT, e), ignore_errors=True)
+    # keep the cache small: entries beyond the 8 most recently used are removed, but never one that
+    # was used in the last 45 minutes (several checks may run concurrently against different trees)
+    def used(e):
+        ok = os.path.join(CACHE_ROOT, e, "OK")
+        try:
+            return os.path.getmtime(ok)
+        except OSError:
+            return os.path.getmtime(os.path.join(CACHE_ROOT, e))
+    ents = sorted((e for e in os.listdir(CACHE_ROOT)), key=used)
+    for e in ents[:-8]:
+        if time.time() - used(e) > 2700:
+            shutil.rmtree(os.path.join(CACHE_ROOT, e), ignore_errors=True)
     tmp = d + ".tmp%d" % os.getpid()
     shutil.rmtree(tmp, ignore_errors=True)
     os.makedirs(os.path.join(tmp, "obj/java"))
